@@ -299,6 +299,7 @@ var Specs = map[string]*sim.Spec{
 		Assumptions: []string{"one external event in flight at a time; while a handler is inside a beacon call at most one event is queued and only if the call returns before the next tick (select with two ready cases is not seedable)",
 			"a reorg notice is taken to invalidate attester(e+1)/proposer(e) of the changed dependent root and, leniently, the not-yet-started next sync period; an indices change invalidates every epoch and period",
 			"a beacon call that ignores its deadline blocks its handler: ticks passed meanwhile are MAY, and an attester duty dispatched late (within one epoch) after such a call is MAY",
+			"empty active set: once the indices-change notice that removed the last validator reached the idle handler and one full tick was processed, any dispatch is MUST-NOT (finding dispatch-unassigned, signature <ROLE>/active-set-empty, contained: the run continues); dispatches at the first tick after the notice are MAY",
 			"ExecuteDuty for attester/sync-committee roles is invoked after the 1/3-slot (or head+200ms) release: 'at the tick' is judged as 'during the duty's own slot'"},
 	},
 }
